@@ -200,11 +200,22 @@ where
 
     let mut x = x0;
     let mut iter = 0;
+    let mut is_left_of_root = false;
 
     while iter < 100 {
         iter += 1;
         let dfdx = f1(x);
         let dx = -f0(x) / dfdx;
+
+        // The starting point is not always to the left of the true value.
+        // While the initial corrections are negative, step back across the
+        // root (halving instead if the step would leave the domain x > 0)
+        // rather than halting at x0.
+        if !is_left_of_root && dx < T::zero() && dx.is_finite() {
+            x = if x + dx > T::zero() { x + dx } else { x * (0.5).as_T() };
+            continue;
+        }
+        is_left_of_root = true;
 
         if (dx < T::epsilon())
             || (T::abs(dx / x) < T::sqrt(T::epsilon()))
